@@ -73,7 +73,7 @@ UNIT = 'Jy'
 _Q = dict(
     boxes=[(1, 1), (2, 3), (3, 2), (8, 8), (0, 2), (2, 0)],
     images=[(5, 6), (1, 1), (3, 4), (6, 2)],
-    weights=['ones', 'checker', 'antichecker', 'frac', 'tiny', 'frac_list'],
+    weights=['ones', 'checker', 'antichecker', 'frac', 'tiny', 'frac_list', 'wide'],
     dtypes=['int64', 'float64', 'quantity', 'uint16'],
     layouts=['C', 'view'],
     fills=['0', '7', 'nan', 'inf'],
@@ -141,6 +141,8 @@ def _weight(wname, j, i):
         return Fraction((3 * j + 5 * i + 1) % 9, 8)
     if wname == 'tiny':      # strictly positive weights far below any tolerance (a pixel the shape barely grazes), zeros and ones
         return [Fraction(0), Fraction(1, 2 ** 40), Fraction(1), Fraction(1, 2 ** 30), Fraction(1, 2 ** 27)][(2 * j + 3 * i + 1) % 5]
+    if wname == 'wide':      # a caller-built coverage map: weights above 1 are weights like any other
+        return [Fraction(0), Fraction(5, 4), Fraction(2), Fraction(1), Fraction(3, 2)][(2 * j + 3 * i + 1) % 5]
     if wname == 'nondyadic':  # the float nearest to 0, .3, .6, .9 (reference uses that float exactly)
         return Fraction([0.0, 0.3, 0.6, 0.9][(2 * j + 3 * i + 1) % 4])
     raise ValueError(wname)
@@ -738,6 +740,20 @@ def check_nonfinite(res, ctx):
             _V(res, 'unexpected_exception', case, f'{name} on a read-only image with non-finite pixels raised {type(r).__name__}: {r} -- '
                                                   f'{_describe(ctx)}')
         _after(res, ctx, case, name)
+    # get_values: one entry per in-image pixel of positive weight, in row-major order -- non-finite pixels included
+    want = []
+    for j in range(g.bny):
+        for i in range(g.bnx):
+            c = g.cells[j][i]
+            if c is not None and ctx.W[j][i] > 0:
+                want.append(float(img[c[0], c[1]]) * float(ctx.W[j][i]))
+    ok, r = _call(res, lambda: ctx.mask.get_values(img))
+    if ok:
+        got = np.asarray(r, float).ravel()
+        if got.shape != (len(want),) or not np.array_equal(got, np.array(want, float), equal_nan=True):
+            _V(res, 'values_wrong', ctx.base_case('nonfinite:get_values'),
+               f'get_values on an image with non-finite pixels returned {got.tolist()}, expected {want} (one entry per in-image pixel of positive '
+               f'weight) -- {_describe(ctx)}', want, got.tolist())
     res.outcome(('nonfinite', g.kind))
 
 
